@@ -143,6 +143,18 @@ where
         // for the invalidated value.
         let mut cache_opt = self.cache.write().await;
 
+        // Another task may have fetched the current value while we were waiting.
+        if matches!(&*cache_opt, Some(cache) if cache.is_valid()) {
+            return Ok(tokio::sync::RwLockReadGuard::map(
+                tokio::sync::RwLockWriteGuard::downgrade(cache_opt),
+                |co| co.as_ref().unwrap(),
+            ));
+        }
+
+        // Release the invalidated value, because the owner waits for
+        // that before it serves further requests.
+        *cache_opt = None;
+
         // Request and receive current value.
         let (value_tx, value_rx) = oneshot::channel();
         let _ = self.req_tx.send(ReadRequest { value_tx }).await;
